@@ -11,21 +11,38 @@ GEN = ["gen_particle_tables"]
 ALLOWED_AXIOMS = []
 TRUSTED = [
     "Coq 8.16.1 kernel + vm_compute; every theorem closed under the global context",
-    "loader models coq/Model/Oscar.v, Jetscape.v (hand-written, token level) incl. the skip/read line arithmetic, the per-event "
-    "count rewrite under a constructor filter and the final slicing; tied by this run's correspondence over EVERY valid selector of "
-    "every generated file, with and without a constructor filter",
-    "tables regenerated from Particle.py (gen_particle_tables); oracles float()/int()/PDGID as in C01",
+    "loader models coq/Model/Oscar.v, Jetscape.v, PObj.v (hand-written; files at token level) incl. the skip/read line arithmetic, the "
+    "per-event count rewrite under a constructor filter (set row / delete row and decrement the later labels) and the final slicing; "
+    "tied by this run's correspondence over EVERY valid selector (and out-of-range ones) of every generated file / event list, "
+    "without and with constructor filters (Oscar: charged_particles; JETSCAPE: charged_particles, multiplicity_cut, both chained)",
+    "document models OscarDoc.v / JetscapeDoc.v (what a well-formed file is: jwf - event i carries label i+1 and declares its "
+    "number of particle rows, rows are not mistaken for header/trailer lines; hadron and parton files through the defining word)",
+    "tables regenerated from Particle.py (gen_particle_tables); oracles float()/int()/PDGID/sqrt as in C01",
 ]
-ASSUMPTIONS = ["theorems are proved for the Oscar family; the JETSCAPE and particle-object selections are covered by the model "
-               "correspondence (JETSCAPE) and by the property oracle on the real code (all three classes)"]
-LEVEL_TEXT = ("Theorems (Coq): for every well-formed Oscar-family document and every selector, loading with events=(a,b) / events=k returns "
-              "exactly the slice a..b of the unrestricted load - particles in order, counts under the original labels, number of events, the "
-              "selected events' own impact parameters; events=k is events=(k,k) for any file; a range past the last event is IndexError. "
-              "The loader models (Oscar and JETSCAPE, with a constructor filter as well) are run against the real constructors for every selector.")
-LEVEL_NOTE = ("Hand-written loader models tied by correspondence; the JETSCAPE and ParticleObjectStorer selections have no theorem of their own "
-              "(model correspondence resp. property oracle only); constructor filters are an arbitrary per-event function in the model and "
-              "one concrete filter (charged_particles) in the correspondence.")
-TECHNIQUE = "Coq proof (firstn/skipn line arithmetic by induction over events) on an executable loader model; exhaustive-selector vm_compute correspondence"
+ASSUMPTIONS = ["the theorems speak about the loader models (Oscar, JETSCAPE, particle-object storer); that the models describe the code is "
+               "checked by the correspondence, and the property itself by the property oracle on the real code (all three classes)",
+               "a constructor filter is an arbitrary total function of one event's particle list in the Oscar/JETSCAPE theorems (a filter "
+               "that raises is only in the particle-object model); the concrete filter chains are C05's subject",
+               "Oscar2013Extended_IC / _Photons header scans are not modelled (as in C01)"]
+LEVEL_TEXT = ("Theorems (Coq): for every well-formed Oscar-family or JETSCAPE (hadron/parton) document, any number of events, empty events "
+              "anywhere, and every selector: loading with events=(a,b) / events=k returns exactly the slice a..b of the unrestricted load - "
+              "particles in order, counts under the original labels as a 2-D table, number of events, for Oscar the selected events' own impact "
+              "parameters, for JETSCAPE the unchanged sigmaGen pair; events=k is events=(k,k) for ANY file (JETSCAPE: under any constructor filter as well); a "
+              "selection past the last event is IndexError (JETSCAPE: also with a filter), never a wrapped index; with a constructor filter "
+              "(any per-event function) the result is select-then-filter: each selected event filtered on its own, an event the filter empties "
+              "dropped unless it was empty in the file, counts = the sizes of the events kept, labels consecutive from the first selected "
+              "label (equal to the original labels whenever no event is dropped); sigmaGen of any two successful loads of one file agree. "
+              "The particle-object storer has the analogous theorems on its own model (slice, single = range, counts, select-then-filter with "
+              "a possibly raising filter, invalid selectors).  All three models are run against the real constructors for every selector.")
+LEVEL_NOTE = ("Hand-written loader models tied by correspondence (not generated from the source).  Under a constructor filter the count rows "
+              "after a DROPPED event carry decremented labels (the code relabels consecutively, as the filter methods do): the theorems state "
+              "exactly that, so 'original labels' is proved for the unfiltered selection and for filtered selections that drop no event.  "
+              "Oscar: events=k together with a filter has no theorem of its own (range-with-filter and unfiltered single = range only).  "
+              "Constructor filters are an arbitrary per-event function in the theorems and three concrete chains in the correspondence; "
+              "particle_list() itself is not modelled for the file loaders - the theorems fix what it consumes (2-D count table whose sizes "
+              "equal the held events' sizes, num_events = number of rows) and the property oracle calls it on every case.")
+TECHNIQUE = ("Coq proof (firstn/skipn line arithmetic by induction over events; read-loop invariant 'counts = relabelled sizes of the events "
+             "kept ++ the open event ++ the events to come') on executable loader models; exhaustive-selector vm_compute correspondence")
 
 PRELUDE = """From Coq Require Import List String ZArith QArith.
 From SX Require Import Lib.Strs Gen.GenParticleMap Model.Oscar Model.Jetscape.
@@ -33,15 +50,18 @@ Import ListNotations.
 Local Open Scope string_scope.
 Definition charged (ps : list particle) : list particle :=
   filter (fun p => match get_slot 12 p with Some c => negb (Qeq_bool c 0) | None => false end) ps.
-Definition check_jetscape_f (tf ti : string -> option Q) (pv : Q -> bool) (pc : Q -> Q) (sq : Q -> Q)
+Definition mult_cut2 (ps : list particle) : list particle := if (List.length ps <? 2)%nat then [] else ps.
+Definition check_jetscape_f (flt : list particle -> list particle)
+           (tf ti : string -> option Q) (pv : Q -> bool) (pc : Q -> Q) (sq : Q -> Q)
            (file : list line) (defstr : string) (sel : selector) (obs : jobserved) : nat :=
-  match jload tf ti pv pc sq (Some charged) file defstr sel, obs with
+  match jload tf ti pv pc sq (Some flt) file defstr sel, obs with
   | Err e, JObsErr e' => if err_eqb e e' then 0 else 2
   | Ok ld, JObsOk ev n c two s1 s2 =>
     if negb (list_eqb (list_eqb jparticle_eqb) (j_events ld) ev) then 3
     else if negb (j_nevents ld =? n)%Z then 4
     else if negb (list_eqb zz_eqb (j_counts ld) c) then 5
     else if negb (Bool.eqb (j_counts_2d ld) two) then 6
+    else if negb (Qeq_bool (fst (j_sigma ld)) s1 && Qeq_bool (snd (j_sigma ld)) s2) then 8
     else 0
   | Ok _, JObsErr _ => 9
   | Err _, JObsOk _ _ _ _ _ _ => 10
@@ -240,6 +260,31 @@ def po_oracle(case):
     return None
 
 
+# constructor filters of the file-based cases: case["filt"] is False (none), True (charged_particles; kept as a bool so
+# that older replay files stay valid) or one of the names below (JETSCAPE cases)
+JET_FILTERS = [True, "mult", "charged+mult"]
+
+
+def filt_name(f):
+    return None if not f else ("charged" if f is True else f)
+
+
+def filt_kwargs(f):
+    """the constructor's filters= dictionary"""
+    return {"charged": {"charged_particles": True}, "mult": {"multiplicity_cut": (2, None)},
+            "charged+mult": {"charged_particles": True, "multiplicity_cut": (2, None)}}[filt_name(f)]
+
+
+def filt_methods(f, obj):
+    """the same filters as method calls on a loaded object (select, then filter)"""
+    for name in filt_name(f).split("+"):
+        obj = obj.charged_particles() if name == "charged" else obj.multiplicity_cut((2, None))
+    return obj
+
+
+FILT_COQ = {"charged": "charged", "mult": "mult_cut2", "charged+mult": "(fun e => mult_cut2 (charged e))"}
+
+
 def selectors(n, rng, quick):
     sels = [None] + list(range(n)) + [(a, b) for a in range(n) for b in range(a, n)]
     sels += [n, (0, n), (n - 1, n + 1), (n + 1, n + 2)]           # out of range
@@ -251,7 +296,7 @@ def observe(case, ctx, idx):
     if case["sel"] is not None:
         kw["events"] = tuple(case["sel"]) if isinstance(case["sel"], list) else case["sel"]
     if case["filt"]:
-        kw["filters"] = {"charged_particles": True}
+        kw["filters"] = filt_kwargs(case["filt"])
     if case["kind"] == "jet":
         path = os.path.join(ctx.work, f"g{idx}.dat")
         open(path, "w").write(case["text"])
@@ -272,7 +317,7 @@ def coq_case(case, obs):
     if case["kind"] == "jet":
         tf, ti, pv, pc, sq = J.tables(lines)
         word = "N_hadrons" if case["doc"]["ptype"] == "hadron" else "N_partons"
-        fn = "check_jetscape_f" if case["filt"] else "check_jetscape"
+        fn = f"check_jetscape_f {FILT_COQ[filt_name(case['filt'])]}" if case["filt"] else "check_jetscape"
         return (f"({fn} (table {tf}) (table {ti}) (pvtable {pv}) (qtable {pc}) (qtable {sq}) "
                 f"{J.coq_file(lines)} {C.coq_str(word)} {sel} {J.coq_observed(obs)})")
     tf, ti = G.token_tables(lines)
@@ -287,18 +332,56 @@ def oracle(case):
     sel = case["sel"]
     if case["kind"] == "pobj":
         return po_oracle(case)
-    if case.get("filt"):
-        return oracle_filtered(case, tmp)
-    if case["kind"] == "jet":
-        n = len(case["doc"]["events"])
-    else:
-        n = len(case["doc"]["events"])
+    n = len(case["doc"]["events"])
     hi = sel if isinstance(sel, int) else (sel[1] if sel is not None else 0)
     if sel is not None and hi >= n:
         return oracle_oob(case, tmp)
+    if case["kind"] == "jet" and isinstance(sel, int):
+        msg = oracle_single_is_range(case, tmp)
+        if msg:
+            return msg
+    if case.get("filt"):
+        return oracle_filtered(case, tmp)
     if case["kind"] == "jet":
         return J.oracle_load(case["doc"], tmp, sel)
     return G.oracle_load(case["doc"], tmp, sel)
+
+
+def _snapshot(o):
+    """every observable C02 names, of a constructed object"""
+    import numpy as np
+    cnt = np.asarray(o.num_output_per_event())
+    snap = {"events": [[p.data_.tolist() for p in e] for e in o.particle_objects_list()], "nevents": int(o.num_events()),
+            "counts": cnt.tolist(), "counts_shape": list(cnt.shape)}
+    if hasattr(o, "get_sigmaGen"):
+        snap["sigma"] = [float(x) for x in o.get_sigmaGen()]
+    try:
+        pl = o.particle_list()
+        snap["particle_list"] = [len(e) for e in pl] if isinstance(pl, list) else str(type(pl))
+    except Exception as e:
+        snap["particle_list"] = f"raises {type(e).__name__}: {e}"[:200]
+    return snap
+
+
+def oracle_single_is_range(case, tmp):
+    """JETSCAPE: events=k is observably events=(k,k) - particles, num_events, count table INCLUDING its shape, sigmaGen,
+    particle_list() - with and without a constructor filter"""
+    k = case["sel"]
+    kw = {"filters": filt_kwargs(case["filt"])} if case.get("filt") else {}
+    snaps = []
+    for ev in (k, (k, k)):
+        try:
+            snaps.append(_snapshot(_open(case, tmp, events=ev, **kw)))
+        except Exception as e:
+            snaps.append({"raises": f"{type(e).__name__}: {e}"[:200]})
+    if json.dumps(snaps[0], sort_keys=True) != json.dumps(snaps[1], sort_keys=True):
+        for key in sorted(set(snaps[0]) | set(snaps[1])):
+            if json.dumps(snaps[0].get(key)) != json.dumps(snaps[1].get(key)):
+                return (f"events={k} and events=({k},{k}) differ in {key} (filters={filt_name(case.get('filt'))}): "
+                        f"{json.dumps(snaps[0].get(key))[:120]} vs {json.dumps(snaps[1].get(key))[:120]}")
+    if isinstance(snaps[0].get("particle_list"), str):
+        return f"events={k}: particle_list() {snaps[0]['particle_list']}"
+    return None
 
 
 def _open(case, tmp, **kw):
@@ -323,8 +406,9 @@ def _open(case, tmp, **kw):
 
 def oracle_oob(case, tmp):
     sel = case["sel"]
+    kw = {"filters": filt_kwargs(case["filt"])} if case.get("filt") else {}
     try:
-        o = _open(case, tmp, events=tuple(sel) if isinstance(sel, list) else sel)
+        o = _open(case, tmp, events=tuple(sel) if isinstance(sel, list) else sel, **kw)
     except Exception as e:
         return None
     return f"selection {sel} reaches past the last event but an object with {o.num_events()} events was returned"
@@ -340,10 +424,10 @@ def oracle_filtered(case, tmp):
     if sel is not None and hi >= n:
         return None
     try:
-        a = _open(case, tmp, filters={"charged_particles": True}, **kw)
+        a = _open(case, tmp, filters=filt_kwargs(case["filt"]), **kw)
     except Exception as e:
-        return f"constructor with events={sel} and filters= raises {type(e).__name__}: {e}"[:300]
-    b = _open(case, tmp, **kw).charged_particles()
+        return f"constructor with events={sel} and filters={filt_name(case['filt'])} raises {type(e).__name__}: {e}"[:300]
+    b = filt_methods(case["filt"], _open(case, tmp, **kw))
     ea = [[p.data_.tolist() for p in e] for e in a.particle_objects_list() if len(e)]
     eb = [[p.data_.tolist() for p in e] for e in b.particle_objects_list() if len(e)]
     if json.dumps(ea) != json.dumps(eb):
@@ -364,6 +448,10 @@ def oracle_filtered(case, tmp):
             return f"events={sel} + filters=: event labels {ca[:, 0].tolist()}, the selected events are {want_labels}"
     if a.num_events() != len(sizes):
         return f"events={sel} + filters=: num_events() = {a.num_events()} but {len(sizes)} events are held"
+    if case["kind"] == "jet":
+        full = _open(case, tmp)
+        if tuple(a.get_sigmaGen()) != tuple(full.get_sigmaGen()):
+            return f"events={sel} + filters=: get_sigmaGen() = {a.get_sigmaGen()}, the unrestricted load has {full.get_sigmaGen()}"
     try:
         a.particle_list()
     except Exception as e:
@@ -373,18 +461,23 @@ def oracle_filtered(case, tmp):
 
 def correspondence(ctx, model_ok=True):
     nfiles = 14 if ctx.quick else 150
+    njet = 6 if ctx.quick else 60                      # a fixed share of JETSCAPE files (hadron and parton) in every run
+    kinds = ["jet"] * njet + ["oscar"] * (nfiles - njet)
+    ctx.rng.shuffle(kinds)
     cases = []
-    for i in range(nfiles):
-        if ctx.rng.random() < 0.4:
-            d = J.gen_doc(ctx.rng, max_events=4, max_mult=3)
+    for i, kind in enumerate(kinds):
+        if kind == "jet":
+            d = J.gen_doc(ctx.rng, ptype=["hadron", "parton", None][i % 3], max_events=4, max_mult=3)
             d["final_newline"] = True
             base = {"kind": "jet", "doc": d, "text": J.render(d)}
+            filts = [False] + JET_FILTERS
         else:
             d = G.gen_doc(ctx.rng, max_events=4, max_mult=3)
             base = {"kind": "oscar", "doc": d, "text": G.render(d)}
+            filts = [False, True]
         n = len(d["events"])
         for sel in selectors(n, ctx.rng, ctx.quick):
-            for filt in [False, True]:
+            for filt in filts:
                 c = dict(base)
                 c["sel"] = list(sel) if isinstance(sel, tuple) else sel
                 c["filt"] = filt
@@ -392,10 +485,13 @@ def correspondence(ctx, model_ok=True):
     obs = [observe(c, ctx, i) for i, c in enumerate(cases)]
     out = {"evaluations": len(cases),
            "distinct_nontrivial": len({(c["text"], json.dumps(c["sel"]), c["filt"]) for c, o in zip(cases, obs) if "err" not in o and c["sel"] is not None}),
-           "rule": "for each generated Oscar/ASCII/JETSCAPE file: EVERY selector (none, each k, each (a,b), plus out-of-range ones), "
-                   "Oscar also with the constructor filter charged_particles; non-trivial = a real selection that loads; "
+           "rule": "for each generated Oscar/ASCII/JETSCAPE file (a fixed share of JETSCAPE hadron and parton files in every run): EVERY "
+                   "selector (none, each k, each (a,b), plus out-of-range ones), without a constructor filter and with charged_particles "
+                   "(JETSCAPE also with multiplicity_cut and with both chained); non-trivial = a real selection that loads; "
                    "model evaluated by vm_compute and compared with the real constructor (events, counts incl. shape, num_events, impact "
-                   "parameters / sigmaGen, exception class); the property oracle compares every case with the independent re-parse of the selected slice",
+                   "parameters / sigmaGen, exception class); the property oracle compares every case with the independent re-parse of the "
+                   "selected slice, resp. with select-then-filter by the filter methods; for JETSCAPE also events=k against events=(k,k) "
+                   "(incl. count-array shape and particle_list()) and that a selection past the last event raises also with a filter",
            "samples": [{"sel": c["sel"], "filt": c["filt"], "text": c["text"][:200]} for c in cases[5:7]],
            "exhaustive": False, "failures": [], "broken": []}
     ok, log = C.make(["Model/Oscar.vo", "Model/Jetscape.vo"])
@@ -416,7 +512,10 @@ def correspondence(ctx, model_ok=True):
         codes += C.parse_codes(o)
     out["traces_validated_against_impl"] = sum(1 for c in codes if c == 0)
     out["distribution"] = {"codes": dict(Counter(codes)), "impl": dict(Counter(o.get("err", "ok") for o in obs)),
-                           "kinds": dict(Counter(c["kind"] for c in cases)), "with_filter": sum(c["filt"] for c in cases)}
+                           "kinds": dict(Counter(c["kind"] for c in cases)), "with_filter": sum(1 for c in cases if c["filt"]),
+                           "filters": dict(Counter(f"{c['kind']}:{filt_name(c['filt'])}" for c in cases)),
+                           "jet_single_selectors": sum(1 for c in cases if c["kind"] == "jet" and isinstance(c["sel"], int)),
+                           "jet_particle_types": dict(Counter(c["doc"]["ptype"] for c in cases if c["kind"] == "jet"))}
     for c, o, code in zip(cases, obs, codes):
         cc = {k: c[k] for k in ("kind", "doc", "sel", "filt")}
         if code != 0:
